@@ -420,3 +420,49 @@ func VerifC16_ChildStoreSystemEntities() {
 		return nil
 	})
 }
+
+// VerifC06_CascadeRetriedOnSameContext: a cascading delete that is refused half
+// way (a system entity among the referrers, ordinary context) is tried again
+// on the SAME mutate context, now as a system context: the second attempt
+// cascades completely - nothing the first attempt recorded in the context
+// survives its failure - and no trace of the deleted id remains.
+func VerifC06_CascadeRetriedOnSameContext() {
+	dept := verifNewDeptStore()
+	wiring := verifrt.Choose("wiring", 2)
+	env := verifNewSysEnvOwned(dept, wiring)
+	defer env.raw.Close()
+	const victim = "victim-dept"
+	err := env.db.Update(NewMutateContext(context.Background()), func(ctx MutateContext) error {
+		return dept.Create(ctx, &vDept{Id: victim, Label: "L"})
+	})
+	verifrt.Assert(err == nil, "C06 dept setup succeeds")
+	owner := victim
+	// gadgets: an ordinary one (sorted first) and a system one, both referencing the dept
+	for i, sys := range []bool{false, true} {
+		err := env.db.Update(NewMutateContext(context.Background()), func(ctx MutateContext) error {
+			c := ctx
+			if sys {
+				c = ctx.GetSystemContext()
+			}
+			return env.store.Create(c, &vSysEnt{BaseExtEntity: BaseExtEntity{Id: vIds[i], IsSystem: sys}, Name: "n" + vIds[i], Owner: &owner})
+		})
+		verifrt.Assert(err == nil, "C06 gadget setup succeeds")
+	}
+	ctx := NewMutateContext(context.Background())
+	err = env.db.Update(ctx, func(c MutateContext) error { return dept.DeleteById(c, victim) })
+	verifrt.Assert(err != nil, "C06 the cascading delete is refused from an ordinary context (system entity among the referrers)")
+	err = env.db.Update(ctx, func(c MutateContext) error { return dept.DeleteById(c.GetSystemContext(), victim) })
+	verifrt.Assert(err == nil, "C06 the same delete retried on the same context as a system context succeeds")
+	_ = env.db.View(func(tx *bbolt.Tx) error {
+		verifrt.Assert(!verifScanForId(tx, victim), "C06 after the retried cascading delete the id occurs nowhere (every referrer went with it)")
+		for i := 0; i < 2; i++ {
+			_, found, _ := env.store.FindById(tx, vIds[i])
+			verifrt.Assert(!found, "C06 the retried cascade removes every referrer")
+		}
+		return nil
+	})
+}
+
+func init() {
+	verifQueryFamilies = append(verifQueryFamilies, func() []string { return []string{`owner = "victim-dept"`} })
+}
